@@ -15,11 +15,12 @@ def truthySpec : Val → Bool
   | .bool v => v
   | .str s => s != []
   | .html s => s != []
+  | .ptr _ none => false        -- a typed nil pointer
   | _ => true
 
 theorem C07_truthy (v : Val) : isTruthy v = truthySpec v := by
   cases v <;> simp [isTruthy, Val.tview, Gen.isTruthyView, truthySpec]
-  all_goals (rename_i s; cases s <;> simp)
+  all_goals (rename_i s; cases s <;> simp [Val.tview, Gen.isTruthyView, truthySpec])
 
 /-- 0, empty collections and every other value are truthy -/
 theorem C07_zero_and_empty_truthy (a : Nat) :
